@@ -33,6 +33,22 @@ pub enum Trial {
     ExitContract { specs: Vec<ExecSpec>, kinds: Vec<String>, class: String, exit_code: Option<i32>, label: String },
     /// C16: invalid option combination: rejected with non-zero status before any output is written.
     Rejected { spec: ExecSpec, label: String },
+    /// C12: words planted at chosen indices are reported exactly at their offsets (word cutting).
+    Markers { spec: ExecSpec, marker_offsets: Vec<u64>, label: String },
+    /// C12: a payload ending in more than 15 bytes of 0xFF: one payload error, nothing inside the
+    /// payload, next packet judged from the initial state.
+    ExcessPadding {
+        spec: ExecSpec,
+        rdh_off: u64,
+        payload_end: u64,
+        /// the run must report exactly one error (the payload error)
+        expect_only_payload_error: bool,
+        /// the next packet of the link is a stop page: its DDW0 must be judged as the expected IHW
+        e30_at: Option<u64>,
+        label: String,
+    },
+    /// C19: a view shows exactly what is in the data (unstyled run + styled run).
+    Views { plain: ExecSpec, styled: ExecSpec, conforming: bool, label: String },
     /// C07: every reported offset / quoted byte dump / quoted RDH row is truthful.
     Truthful { spec: ExecSpec, label: String },
     /// C03: one well-framed input under several payload-handling paths.
@@ -265,6 +281,13 @@ impl Trial {
             }
             Trial::Rejected { spec, label } => crate::t_exit::run_rejected(ex, spec, label),
             Trial::Truthful { spec, label } => crate::t_stream::run_truthful(ex, spec, label),
+            Trial::Markers { spec, marker_offsets, label } => run_markers(ex, spec, marker_offsets, label),
+            Trial::ExcessPadding { spec, rdh_off, payload_end, expect_only_payload_error, e30_at, label } => {
+                run_excess_padding(ex, spec, *rdh_off, *payload_end, *expect_only_payload_error, *e30_at, label)
+            }
+            Trial::Views { plain, styled, conforming, label } => {
+                crate::t_views::run_views(ex, plain, styled, *conforming, label)
+            }
             Trial::Scan { specs, label } => crate::t_stream::run_scan(ex, specs, label),
             Trial::FilterWrite { base, filters, to_file, label } => {
                 crate::t_stream::run_filter_write(ex, base, filters, *to_file, label)
@@ -288,6 +311,9 @@ impl Trial {
             Trial::ExitContract { specs, .. } => specs.iter_mut().collect(),
             Trial::Rejected { spec, .. } => vec![spec],
             Trial::Truthful { spec, .. } => vec![spec],
+            Trial::Markers { spec, .. } => vec![spec],
+            Trial::ExcessPadding { spec, .. } => vec![spec],
+            Trial::Views { plain, styled, .. } => vec![plain, styled],
             Trial::FilterWrite { base, .. } => vec![base],
             Trial::StatsTruth { spec, .. } => vec![spec],
         }
@@ -366,6 +392,12 @@ impl Trial {
                 "runs": kinds, "exec": s(&specs[0])}),
             Trial::Rejected { spec, label } => json!({"trial": "rejected", "label": label, "exec": s(spec)}),
             Trial::Truthful { spec, label } => json!({"trial": "truthful", "label": label, "exec": s(spec)}),
+            Trial::Markers { spec, marker_offsets, label } => json!({
+                "trial": "markers", "label": label, "marker_offsets": marker_offsets, "exec": s(spec)}),
+            Trial::ExcessPadding { spec, rdh_off, payload_end, expect_only_payload_error, e30_at, label } => json!({
+                "trial": "excess-padding", "label": label, "rdh_offset": rdh_off, "payload_end": payload_end,
+                "expect_only_payload_error": expect_only_payload_error, "e30_at": e30_at, "exec": s(spec)}),
+            Trial::Views { plain, conforming, label, .. } => json!({"trial": "views", "label": label, "conforming": conforming, "exec": s(plain)}),
             Trial::Scan { specs, label } => json!({
                 "trial": "scan", "label": label, "execs": specs.iter().map(|x| s(x)).collect::<Vec<_>>()}),
             Trial::FilterWrite { base, filters, to_file, label } => json!({
@@ -738,6 +770,133 @@ fn run_stats_truth(ex: &mut Executor, spec: &ExecSpec, analysed: bool, label: &s
                 "report-Total-Errors",
                 format!("report shows Total Errors {n}, statistics file has {total}"),
             ));
+        }
+    }
+    out
+}
+
+fn run_markers(ex: &mut Executor, spec: &ExecSpec, markers: &[u64], label: &str) -> TrialOutcome {
+    let r = ex.exec(spec);
+    let mut out = TrialOutcome {
+        nontrivial: !markers.is_empty() && r.outcome.threads >= 4,
+        key: case_key(&spec.input, &r),
+        labels: vec![label.to_string()],
+        ..Default::default()
+    };
+    if let Some(f) = check_orderly(&r) {
+        out.fail = Some(f);
+        return out;
+    }
+    let errs = oracle::error_msgs(&r.stderr);
+    let mut want: Vec<u64> = markers.to_vec();
+    want.sort_unstable();
+    want.dedup();
+    let mut got: Vec<u64> = errs.iter().filter_map(|e| e.offset).collect();
+    got.sort_unstable();
+    got.dedup();
+    let tagm = |m: String| format!("{m} [cmd: {}]", spec.cmdline());
+    if got != want {
+        let missing: Vec<String> = want.iter().filter(|o| !got.contains(o)).map(|o| format!("{o:#X}")).collect();
+        let extra: Vec<String> = got.iter().filter(|o| !want.contains(o)).map(|o| format!("{o:#X}")).collect();
+        let first_extra = errs.iter().find(|e| e.offset.map_or(false, |o| !want.contains(&o))).map(|e| clip(&e.text));
+        out.fail = Some(Fail::new(
+            "word-cutting",
+            "marker-offsets",
+            tagm(format!(
+                "planted words at {} offsets; errors at {} offsets; not reported: {missing:?}; reported elsewhere: {extra:?} (first: {first_extra:?})",
+                want.len(),
+                got.len()
+            )),
+        ));
+        return out;
+    }
+    for e in &errs {
+        if e.offset.is_none() {
+            out.fail = Some(Fail::new("word-cutting", "message-without-offset", tagm(clip(&e.text))));
+            return out;
+        }
+    }
+    // each marker carries the unrecognised-ID / data-word-ID family
+    for o in &want {
+        let codes: Vec<&String> = errs.iter().filter(|e| e.offset == Some(*o)).flat_map(|e| e.codes.iter()).collect();
+        if !codes.iter().any(|c| c.as_str() == "E991" || c.as_str() == "E70") {
+            out.fail = Some(Fail::new(
+                "word-cutting",
+                "marker-code",
+                tagm(format!("planted word at {o:#X} reported with codes {codes:?}, expected E991/E70")),
+            ));
+            return out;
+        }
+    }
+    out
+}
+
+fn run_excess_padding(
+    ex: &mut Executor,
+    spec: &ExecSpec,
+    rdh_off: u64,
+    payload_end: u64,
+    only: bool,
+    e30_at: Option<u64>,
+    label: &str,
+) -> TrialOutcome {
+    let r = ex.exec(spec);
+    ex.fault("excess_padding_payload");
+    let mut out = TrialOutcome {
+        nontrivial: r.outcome.threads >= 4,
+        key: case_key(&spec.input, &r),
+        labels: vec![label.to_string()],
+        ..Default::default()
+    };
+    if let Some(f) = check_orderly(&r) {
+        out.fail = Some(f);
+        return out;
+    }
+    let errs = oracle::error_msgs(&r.stderr);
+    let tagm = |m: String| format!("{m} [cmd: {}]", spec.cmdline());
+    let pe: Vec<&oracle::ErrMsg> = errs.iter().filter(|e| e.text.contains("Payload error following RDH")).collect();
+    if pe.len() != 1 || pe[0].offset != Some(rdh_off) {
+        out.fail = Some(Fail::new(
+            "padding",
+            "payload-error-count-or-offset",
+            tagm(format!(
+                "expected exactly one `Payload error following RDH` at {rdh_off:#X}; got {} at {:?}",
+                pe.len(),
+                pe.iter().map(|e| e.offset).collect::<Vec<_>>()
+            )),
+        ));
+        return out;
+    }
+    if let Some(e) = errs.iter().find(|e| e.offset.map_or(false, |o| o > rdh_off && o < payload_end)) {
+        out.fail = Some(Fail::new(
+            "padding",
+            "message-inside-skipped-payload",
+            tagm(format!("word-level message inside the skipped payload: {}", clip(&e.text))),
+        ));
+        return out;
+    }
+    if only && errs.len() != 1 {
+        let other = errs.iter().find(|e| !e.text.contains("Payload error following RDH")).map(|e| clip(&e.text));
+        out.fail = Some(Fail::new(
+            "padding",
+            "state-not-reset",
+            tagm(format!(
+                "after the skipped payload the next packet must be judged from the initial state (no further error); got {} messages, e.g. {other:?}",
+                errs.len()
+            )),
+        ));
+        return out;
+    }
+    if let Some(o) = e30_at {
+        let hit = errs.iter().any(|e| e.offset == Some(o) && e.codes.iter().any(|c| c == "E30"));
+        if !hit {
+            out.fail = Some(Fail::new(
+                "padding",
+                "state-not-reset-ddw0",
+                tagm(format!("after the reset the DDW0 at {o:#X} must be judged as the expected IHW ([E30]); messages there: {:?}",
+                    errs.iter().filter(|e| e.offset == Some(o)).map(|e| e.codes.clone()).collect::<Vec<_>>())),
+            ));
+            return out;
         }
     }
     out
